@@ -109,6 +109,19 @@ def col_cases(tier):
                 yield (f"col:blockcomment-{which}{'-tab' + str(len(tab) % 4) if tab else ''}:last-nl", ".c", base + block, ln + off, w)
                 if which == "last":
                     yield (f"col:blockcomment-last{'-tab' + str(len(tab) % 4) if tab else ''}:eof-nonl", ".c", base + block[:-1], ln + off, w)
+    # multi-line block comments that do not open in column 1 (after a declaration on the same line; indented in a
+    # body): the interior and last lines are measured from their own column 1
+    for w in widths:
+        inter = pad_to("** ", "", w, "c")
+        last = pad_to("** ", " */", w, "c")
+        if inter is not None:
+            text = HDR_C + "int\tg_a; /* opens late\n" + inter + "\n*/\n\n" + (F1 % "") + "\n" + F2
+            yield ("col:blockcomment-offset-sp-interior:after-global", ".c", text, 14, w)
+            text = HDR_C + (F1 % ("\tn = 0; /* opens late\n" + inter + "\n*/\n")) + "\n" + F2
+            yield ("col:blockcomment-offset-sp-interior:in-body", ".c", text, 12 + 2 + 2, w)
+        if last is not None:
+            text = HDR_C + "int\tg_a; /* opens late\n" + last + "\n\n" + (F1 % "") + "\n" + F2
+            yield ("col:blockcomment-offset-sp-last:after-global", ".c", text, 14, w)
     # code lines inside a body, depth 1..3, declaration, signature
     for w in widths:
         for depth, wrap in ((1, "%s"), (2, deep), (3, deeper)):
